@@ -27,9 +27,10 @@ from vlib import Ctx, bag, plain
 
 ID = "C03"
 LEVEL = "proof"
-MODULES = ["SqlframeModel.Codec.C03", "SqlframeModel.Props.C03"]
-GEN = ["Actions"]
-SOURCES = ["SqlframeModel/Props/C03.lean", "SqlframeModel/Lemmas/C03.lean", "SqlframeModel/Impl/C03.lean"]
+MODULES = ["SqlframeModel.Codec.C03", "SqlframeModel.Codec.C01", "SqlframeModel.Props.C03", "SqlframeModel.Props.C03Text"]
+GEN = ["Actions", "Operations", "Methods", "Clauses"]
+SOURCES = ["SqlframeModel/Props/C03.lean", "SqlframeModel/Props/C03Text.lean", "SqlframeModel/Lemmas/C03.lean", "SqlframeModel/Impl/C03.lean",
+           "SqlframeModel/Impl/DataFrame.lean", "SqlframeModel/Props/C01.lean"]
 FLAGS = list(itertools.product([True, False], [True, False], [True, False]))  # optimize, quote_identifiers, pretty
 
 # ------------------------------------------------------------------------------------------------
@@ -331,7 +332,13 @@ def run_chain(c: dict) -> dict:
         for s in c["steps"]:
             df = apply_spelled(df, s, F) if c.get("spell") else c01.apply_step(df, s, F)
         fails, _ = run_texts(df, c01.order_checked(c))
-        return {"fails": fails}
+        shape = None
+        if c.get("source", "createDataFrame") == "createDataFrame" and c["rows"]:
+            try:
+                shape = c01.shape_of_sql(df.sql(dialect="duckdb", optimize=False))
+            except Exception as e:  # noqa
+                shape = f"unreadable: {type(e).__name__}"
+        return {"fails": fails, "shape": shape}
     except Exception as e:  # noqa
         return {"fails": [f"building the program raised {type(e).__name__}: {str(e)[:200]}"]}
 
@@ -726,6 +733,28 @@ def run(ctx: Ctx) -> None:
                     c["spell"] = True
                 chains.append(c)
     cres = vlib.parallel_map(run_chain, chains)
+    # (c) the unoptimized statement, block by block, against the model's chain of frozen CTEs (C03_text_eval is about that chain)
+    mouts = vlib.run_driver("C01", [c01.case_to_lean(i, c) for i, c in enumerate(chains)])
+    shape_bad = []
+    shape_ok = 0
+    for c, r, o in zip(chains, cres, mouts):
+        if r.get("shape") is None or "shape" not in o:
+            continue
+        ms = c01.norm_shape(o["shape"])
+        rs = c01.norm_shape(r["shape"])
+        if c.get("spell") and isinstance(rs, list):
+            # the statement writes introduced names as the user spelled them (upper case here); the model has one spelling
+            for sh in (ms, rs):
+                for blk in sh:
+                    if isinstance(blk, dict) and blk.get("kind") == "block":
+                        blk["sel"] = [str(n).lower() for n in blk["sel"]]
+                        blk["order"] = [[str(k[0]).lower(), k[1]] for k in blk["order"]]
+        if rs != ms:
+            shape_bad.append({"program": c01.show_case(c), "statement": r["shape"], "model": o["shape"]})
+        else:
+            shape_ok += 1
+    if shape_bad:
+        ctx.broken.append(f"correspondence stream (CTE chain of the real unoptimized statement vs the model's frozen blocks DF.hist): {len(shape_bad)} of {shape_ok + len(shape_bad)} chains differ, e.g. {json.dumps(shape_bad[0])[:700]}")
     for c, r in zip(chains, cres):
         if r["fails"]:
             kf = classify_chain(c, r["fails"], known)
@@ -767,7 +796,7 @@ def run(ctx: Ctx) -> None:
         vlib.report_violation(ctx, dict(v, kind="a rendering of df.sql() fails, is not self-contained, or does not return collect()'s result", broken=ctx.broken))
         reported += 1
     if ctx.broken and not reported:
-        vlib.report_violation(ctx, {"kind": "proof obligation or correspondence no longer checks; no failing input found", "broken": ctx.broken, "searched": {"trees": len(trees), "chains": len(chains)}, "first_model_mismatch": struct_mismatch[:1]}, no_input=True)
+        vlib.report_violation(ctx, {"kind": "proof obligation or correspondence no longer checks; no failing input found", "broken": ctx.broken, "searched": {"trees": len(trees), "chains": len(chains)}, "first_model_mismatch": struct_mismatch[:1], "statement_shape_mismatches": shape_bad[:3]}, no_input=True)
 
     ctx.cov.update(
         {
@@ -780,6 +809,7 @@ def run(ctx: Ctx) -> None:
             "structural_programs": len(trees),
             "traces_validated_against_impl": len(trees) - len(struct_mismatch),
             "chain_programs": len(chains),
+            "statement_shapes_validated_against_impl": shape_ok,
             "uncollectable_programs_skipped": uncollectable,
             "renderings_failing": sum(len(v["failures"]) for v in viol),
             "optimizer_known_findings": len(ctx.known_hits),
